@@ -161,6 +161,53 @@ pub fn run_full(kind: usize, h: &[Ev], times: &[i64], impure: &mut bool) -> Vec<
     }
     out
 }
+/// Two streams of the same type alive at once, fed *different* histories in lockstep (A step, B
+/// step, A step, ...; B's clock runs 0.25 s ahead): each must behave exactly as it does alone.
+/// State that has moved from the object into something shared (a static cache, a module-level
+/// scratch value, a counter) makes the interleaved run differ from the solo runs.
+pub fn twins(kind: usize, ha: &[Ev], hb: &[Ev], e: &mut Eng) -> u64 {
+    let n = ha.len().min(hb.len());
+    let ta: Vec<i64> = (0..n).map(|k| (k as i64 + 1) * S).collect();
+    let tb: Vec<i64> = (0..n).map(|k| (k as i64 + 1) * S + S / 4).collect();
+    let mut imp = false;
+    let r = guard(|| {
+        let solo_a = run_full(kind, &ha[..n], &ta, &mut imp);
+        let solo_b = run_full(kind, &hb[..n], &tb, &mut imp);
+        let mut a = make(kind);
+        let mut b = make(kind);
+        let mut both = Vec::with_capacity(n);
+        for k in 0..n {
+            a.feed(&ha[k], ta[k]);
+            let ua = a.update();
+            b.feed(&hb[k], tb[k]);
+            let ub = b.update();
+            // read B first, then A: a shared "last result" would show up in A's read
+            let gb = b.get();
+            let ga = a.get();
+            both.push(((ua, ga), (ub, gb)));
+        }
+        (solo_a, solo_b, both)
+    });
+    e.checks += n as u64;
+    match r {
+        Err(m) => e.violation(&format!("stateful:{}:twins-panic", KIND_NAMES[kind]), n, || format!("two {} streams with histories [{}] and [{}] in lockstep panicked: {}", KIND_NAMES[kind], hist_name(ha), hist_name(hb), m)),
+        Ok((sa, sb, both)) => {
+            for k in 0..n {
+                if both[k].0 != sa[k] || both[k].1 != sb[k] {
+                    e.violation(&format!("stateful:{}:instances-interfere", KIND_NAMES[kind]), k + 1, || {
+                        format!(
+                            "two {} streams fed [{}] and [{}] in lockstep: at step {} they give (update {}, {}) and (update {}, {}) but alone they give (update {}, {}) and (update {}, {})",
+                            KIND_NAMES[kind], hist_name(&ha[..=k]), hist_name(&hb[..=k]), k, both[k].0 .0, both[k].0 .1.show(), both[k].1 .0, both[k].1 .1.show(), sa[k].0, sa[k].1.show(), sb[k].0, sb[k].1.show()
+                        )
+                    });
+                    break;
+                }
+            }
+            e.outcome(h64(&both));
+        }
+    }
+    (4 * n) as u64
+}
 /// Same history, but get() is only called once, after the last event.
 pub fn run_lazy(kind: usize, h: &[Ev], times: &[i64]) -> Obs {
     let mut s = make(kind);
@@ -468,6 +515,38 @@ pub fn run(ctx: &Ctx) -> Vec<Eng> {
     par_periodic(&mut e3b, 16, 3, ph, budget, |seq, e| freeze_history(seq, e));
     engines.push(e3b);
 
+    let tdepth = 4;
+    let mut e2c = Eng::new(
+        "c05-interleaved-twins",
+        "two live streams of the same type in lockstep: every history of `depth` events over {P(1), P(-2), N, E1, FromNone} against each of 8 partner histories, in both update orders (the second stream's clock 0.25 s ahead): every update result and every get() of each must equal what that stream gives when it runs alone (state shared between instances - a static cache, a module-level scratch value - breaks this); 17 stream types; non-trivial = the two histories differ",
+        &format!("depth {} => 5^{} histories x 8 partners x 2 orders x 17 streams", tdepth, tdepth),
+    );
+    {
+        // every history against a small set of partner histories, in both update orders
+        let partners: Vec<Vec<usize>> = vec![vec![0, 0, 0, 0], vec![1, 1, 1, 1], vec![0, 1, 0, 1], vec![2, 1, 1, 0], vec![3, 0, 1, 1], vec![1, 2, 0, 0], vec![0, 4, 1, 0], vec![2, 2, 2, 2]];
+        let nh = ipow(5, tdepth) as usize;
+        let np = partners.len();
+        let partners = &partners;
+        for kind in 0..17 {
+            par(&mut e2c, (nh * np * 2) as u64, 64, budget, |idx, e| {
+                let idx = idx as usize;
+                let (ia, ip, swap) = (idx / (np * 2), (idx / 2) % np, idx % 2 == 1);
+                let mut da = vec![0usize; tdepth];
+                decode(ia as u64, 5, &mut da);
+                let full: Vec<Ev> = da.iter().map(|&i| SYMS[i]).collect();
+                let part: Vec<Ev> = partners[ip][..tdepth].iter().map(|&i| SYMS[i]).collect();
+                let (ha, hb) = if swap { (part, full) } else { (full, part) };
+                e.executions += 1;
+                e.states += 1;
+                if ha != hb {
+                    e.nontrivial += 1;
+                }
+                e.max_depth = e.max_depth.max(2 * tdepth as u64);
+                e.transitions += twins(kind, &ha, &hb, e);
+            });
+        }
+    }
+    engines.push(e2c);
     let fdepth = if ctx.thorough { 6 } else { 4 };
     let mut e3 = Eng::new(
         "c05-freeze",
